@@ -354,6 +354,19 @@ func sharedPackageState(p *Prog, fns []*ssa.Function) []struct {
 					if !ok || g.Pkg == nil || g.Pkg.Pkg.Path() != pkgVarlink || strings.HasPrefix(g.Name(), "init$") {
 						continue
 					}
+					// a variable that is only assigned by its initialiser with an immutable value (an error made by
+					// errors.New / fmt.Errorf from constants, a compiled regexp, a constant) carries nothing between calls
+					if iv := p.ConstGlobal(g); iv != nil {
+						if _, isK := iv.(*ssa.Const); isK {
+							continue
+						}
+						if c, isC := iv.(*ssa.Call); isC {
+							switch calleeName(&c.Call) {
+							case "errors.New", "fmt.Errorf", "regexp.MustCompile", "time.Unix":
+								continue
+							}
+						}
+					}
 					if pt, ok := g.Type().(*types.Pointer); ok && mutableType(pt.Elem()) {
 						out = append(out, struct {
 							Fn *ssa.Function
